@@ -6,7 +6,7 @@
 (* the 3-step counterexample to boundedness.  Each transition is emitted   *)
 (* as a coin-scripted operation path for replay on the real counter.       *)
 (***************************************************************************)
-EXTENDS CVM, Json
+EXTENDS CVMIdent, Json
 CONSTANTS Caps, Vals, MaxAdds
 VARIABLES s, n, path
 vars == <<s, n, path>>
